@@ -53,4 +53,17 @@ CHECKS = {
                 "for short inputs); fuel parameters exceed the input length.",
         "technique": "Coq proof (induction over the input on an abstract reader view) + exhaustive small-scope correspondence",
     },
+    "C13": {
+        "text": "Coq theorems (Props/C13.v): the SWAR kernel returns value and length of the leading digit run for every 64-bit word "
+                "(lane-decomposition proof, no enumeration of words); the simple scanners return the offset just past the longest "
+                "digit run and Some v exactly when the run's value v is representable (accumulator invariant over the overflow flag, "
+                "all 12 modelled types, both signs, lone '-' not consumed); the multi variants return the same (value, offset) for "
+                "every admissible answer to the buf_len question, including 7/8/9 digits, continuation overflow and MIN of signed "
+                "types. The programs are tied to text.rs by the tx correspondence stream (fast and cold paths, debug and release) and "
+                "an implementation-only big-decimal oracle.",
+        "design_ref": "DESIGN.md 2/C13",
+        "note": "Trusted: Coq kernel; extraction; transcription of text.rs (incl. the bit-twiddling constants) into Text.v, validated "
+                "differentially; num_traits semantics as modelled; i128/u128 included, isize/usize as 64-bit.",
+        "technique": "Coq proof (bit-lane decomposition, loop invariant, all admissible buffering answers) + model/implementation correspondence",
+    },
 }
